@@ -38,7 +38,10 @@ FinalityBroken(pre, post) ==
         /\ Sent(pre.ord[o]) /\ pre.ord[o].status = "COMPLETE"
         /\ ~( /\ post.ord[o].status = "COMPLETE"
               /\ \/ post.ord[o].m = pre.ord[o].m
-                 \/ (post.ord[o].m = 0 /\ post.ord[o].void > pre.ord[o].void) )}
+                 \/ (post.ord[o].m = 0 /\ post.ord[o].void > pre.ord[o].void)
+                 \* a market-on-close lay is re-sized when a non-runner is declared after the SP (C09)
+                 \/ (post.ord[o].type = "MARKET_ON_CLOSE" /\ post.ord[o].side = "LAY"
+                     /\ post.ord[o].size < pre.ord[o].size /\ post.ord[o].m < pre.ord[o].m) )}
 
 \* at most one package in flight per order
 InFlightCount(s, o) ==
@@ -74,7 +77,7 @@ CompleteIffNothingRemains(o) ==
     (o.type = "LIMIT" /\ o.inbl /\ ~(o.pers = "MARKET_ON_CLOSE" /\ ~o.bspd /\ FALSE)) =>
         (o.cplt <=> Rem(o) = 0)
 \* matched never decreases except by a void
-MatchedMonotone(a, b) == b.m >= a.m \/ (b.m = 0 /\ b.void > a.void)
+MatchedMonotone(a, b) == a.type # "LIMIT" \/ b.m >= a.m \/ (b.m = 0 /\ b.void > a.void)
 
 -----------------------------------------------------------------------------
 (* C10  trade / runner accounting (evaluated at the end of every update)     *)
